@@ -573,3 +573,65 @@ pub fn with_seed(mut s: Scn, seed: u64) -> Scn {
   }
   s
 }
+
+// -------------------------------------------------- threaded cold sources
+
+pub fn ms(n: u64) -> Duration {
+  Duration::from_millis(n)
+}
+pub const MS: u64 = 1_000_000;
+
+/// A cold source whose every subscription starts a producer thread that plays
+/// `script` (politely: it checks is_subscribed() before each emission, as the
+/// crate's own threaded test sources do). `gaps` = virtual-time sleep before
+/// each event (ms; empty = none). Every would-be emission is marked in `causes`.
+pub fn threaded_source(label: &'static str, script: Vec<Emit<i64>>, gaps: Vec<u64>, causes: Causes) -> Observable<'static, i64> {
+  Observable::create(move |s: Observer<'static, i64>| {
+    let (script, gaps, causes) = (script.clone(), gaps.clone(), causes.clone());
+    another_rxrust::vstd::thread::spawn(move || {
+      for (i, e) in script.iter().enumerate() {
+        if let Some(g) = gaps.get(i) {
+          if *g > 0 {
+            another_rxrust::vstd::thread::sleep(ms(*g));
+          }
+        }
+        if !s.is_subscribed() {
+          causes.mark(&format!("{}:stopped", label));
+          break;
+        }
+        causes.mark(&format!("{}:{}", label, emit_label(e)));
+        match e {
+          Emit::N(v) => s.next(*v),
+          Emit::E(k) => s.error(err(*k)),
+          Emit::C => s.complete(),
+        }
+      }
+    });
+  })
+}
+
+/// A synchronous cold source (plays inside subscribe), polite.
+pub fn sync_source(label: &'static str, script: Vec<Emit<i64>>, causes: Causes) -> Observable<'static, i64> {
+  Observable::create(move |s: Observer<'static, i64>| {
+    for e in script.iter() {
+      if !s.is_subscribed() {
+        break;
+      }
+      causes.mark(&format!("{}:{}", label, emit_label(e)));
+      match e {
+        Emit::N(v) => s.next(*v),
+        Emit::E(k) => s.error(err(*k)),
+        Emit::C => s.complete(),
+      }
+    }
+  })
+}
+
+pub fn script_label(s: &[Emit<i64>]) -> String {
+  s.iter().map(emit_label).collect::<Vec<_>>().join(",")
+}
+
+/// live controlled threads at the end (anything not finished)
+pub fn unfinished_threads(e: &ExecEnd) -> Vec<usize> {
+  e.threads.iter().enumerate().filter(|(_, t)| t.end != ThreadEnd::Finished).map(|(i, _)| i).collect()
+}
